@@ -21,17 +21,18 @@ import (
 
 // Job is what the driver passes in VERIF_JOB (JSON).
 type Job struct {
-	Property string `json:"property"`
-	Scenario string `json:"scenario"`
-	Tier     string `json:"tier"`
-	BaseSeed uint64 `json:"base_seed"`
-	Worker   int    `json:"worker"`
-	Runs     int    `json:"runs"`    // max runs (0 = unlimited)
-	Seconds  int    `json:"seconds"` // wall budget (0 = unlimited)
-	Out      string `json:"out"`
-	Replay   string `json:"replay"`   // replay file to run instead of generating
-	DumpLogs int    `json:"dumplogs"` // determinism self-test: write the step log hash of each run
-	Known    []KnownSig `json:"known"`
+	Property string         `json:"property"`
+	Scenario string         `json:"scenario"`
+	Tier     string         `json:"tier"`
+	BaseSeed uint64         `json:"base_seed"`
+	Worker   int            `json:"worker"`
+	Runs     int            `json:"runs"`    // max runs (0 = unlimited)
+	Seconds  int            `json:"seconds"` // wall budget (0 = unlimited)
+	Out      string         `json:"out"`
+	Replay   string         `json:"replay"`    // replay file to run instead of generating
+	DumpLogs int            `json:"dumplogs"`  // determinism self-test: write the step log hash of each run
+	OnlySeed uint64         `json:"only_seed"` // debugging: run exactly this seed and keep its full step log
+	Known    []KnownSig     `json:"known"`
 	Params   map[string]int `json:"params"`
 }
 
@@ -79,50 +80,51 @@ type RunFunc func(t *testing.T, tape *simrt.Tape, o Opts) *Result
 
 // ReplayFile is the on-disk form of a (minimised) failing run.
 type ReplayFile struct {
-	Property string    `json:"property"`
-	Scenario string    `json:"scenario"`
-	Tier     string    `json:"tier"`
-	Seed     uint64    `json:"seed"`
-	Tape     []uint32  `json:"tape"`
-	Class    string    `json:"class"`
-	Detail   string    `json:"detail"`
-	LogHash  string    `json:"log_hash"`
-	Sample   any       `json:"sample,omitempty"`
-	Labels   []string  `json:"tape_labels,omitempty"`
-	Log      []string  `json:"log,omitempty"`
+	Property string         `json:"property"`
+	Scenario string         `json:"scenario"`
+	Tier     string         `json:"tier"`
+	Seed     uint64         `json:"seed"`
+	Tape     []uint32       `json:"tape"`
+	Class    string         `json:"class"`
+	Detail   string         `json:"detail"`
+	LogHash  string         `json:"log_hash"`
+	Sample   any            `json:"sample,omitempty"`
+	Labels   []string       `json:"tape_labels,omitempty"`
+	Log      []string       `json:"log,omitempty"`
 	Params   map[string]int `json:"params,omitempty"`
-	OrigLen  int       `json:"original_tape_len"`
+	OrigLen  int            `json:"original_tape_len"`
 }
 
 // Out is the JSON a worker writes.
 type Out struct {
-	Property     string         `json:"property"`
-	Scenario     string         `json:"scenario"`
-	Worker       int            `json:"worker"`
-	Runs         int            `json:"runs"`
-	Discarded    int            `json:"discarded"`
-	DiscardWhy   map[string]int `json:"discard_reasons"`
-	Steps        int64          `json:"steps"`
-	Switches     int64          `json:"switches"`
-	Preempts     int64          `json:"preempts"`
-	SimSeconds   float64        `json:"sim_seconds"`
-	WallSeconds  float64        `json:"wall_seconds"`
-	Faults       map[string]int `json:"faults"`
-	Probes       map[string]int `json:"probes"`
-	Ends         map[string]int `json:"ends"`
-	Hashes       []string       `json:"hashes"`            // distinct schedule hashes (all)
-	NontrivHash  []string       `json:"nontrivial_hashes"` // distinct schedule hashes of non-trivial runs
-	Cover        []string       `json:"cover"`
-	Samples      []any          `json:"samples"`
-	Violations   []ReplayFile   `json:"violations"`
-	Known        map[string]int `json:"known"`
+	Property     string            `json:"property"`
+	Scenario     string            `json:"scenario"`
+	Worker       int               `json:"worker"`
+	Runs         int               `json:"runs"`
+	Discarded    int               `json:"discarded"`
+	DiscardWhy   map[string]int    `json:"discard_reasons"`
+	Steps        int64             `json:"steps"`
+	Switches     int64             `json:"switches"`
+	Preempts     int64             `json:"preempts"`
+	SimSeconds   float64           `json:"sim_seconds"`
+	WallSeconds  float64           `json:"wall_seconds"`
+	Faults       map[string]int    `json:"faults"`
+	Probes       map[string]int    `json:"probes"`
+	Ends         map[string]int    `json:"ends"`
+	Hashes       []string          `json:"hashes"`            // distinct schedule hashes (all)
+	NontrivHash  []string          `json:"nontrivial_hashes"` // distinct schedule hashes of non-trivial runs
+	Cover        []string          `json:"cover"`
+	Samples      []any             `json:"samples"`
+	Violations   []ReplayFile      `json:"violations"`
+	Known        map[string]int    `json:"known"`
 	KnownSamples map[string]string `json:"known_samples"`
-	RunHashes    []string       `json:"run_hashes,omitempty"` // determinism self-test
-	FirstSeed    uint64         `json:"first_seed"`
-	ReplayOK     *bool          `json:"replay_ok,omitempty"`
-	ReplayClass  string         `json:"replay_class,omitempty"`
-	ReplayDetail string         `json:"replay_detail,omitempty"`
-	ReplayHash   string         `json:"replay_hash,omitempty"`
+	RunHashes    []string          `json:"run_hashes,omitempty"` // determinism self-test
+	RunLog       []string          `json:"run_log,omitempty"`
+	FirstSeed    uint64            `json:"first_seed"`
+	ReplayOK     *bool             `json:"replay_ok,omitempty"`
+	ReplayClass  string            `json:"replay_class,omitempty"`
+	ReplayDetail string            `json:"replay_detail,omitempty"`
+	ReplayHash   string            `json:"replay_hash,omitempty"`
 }
 
 // Bubble runs f in a fresh synctest bubble and swallows the end-of-bubble
@@ -213,6 +215,9 @@ func Main(t *testing.T, scenarios map[string]RunFunc) {
 			break
 		}
 		seed := simrt.DeriveSeed(job.BaseSeed, job.Worker, i)
+		if job.OnlySeed != 0 {
+			seed = job.OnlySeed
+		}
 		if i == 0 {
 			out.FirstSeed = seed
 		}
@@ -249,6 +254,9 @@ func Main(t *testing.T, scenarios map[string]RunFunc) {
 		hashes[res.LogHash] = true
 		if res.Nontrivial {
 			nthashes[res.LogHash] = true
+		}
+		if job.OnlySeed != 0 {
+			out.RunLog = res.Log
 		}
 		if job.DumpLogs > 0 {
 			out.RunHashes = append(out.RunHashes, fmt.Sprintf("%d:%016x:%d:%s:%d", seed, res.LogHash, res.Steps, res.SimTime, len(res.Violations)))
